@@ -22,7 +22,7 @@ double g_bg;                                    /* ghost: background value of th
 struct Point3 g_point;                          /* the query point as handed to gravity model and features */
 #define REQ(k) (g_reqp->data[k])
 #define ARR3EQ(a, b) ((a).e[0] == (b).e[0] && (a).e[1] == (b).e[1] && (a).e[2] == (b).e[2])
-#define FORCED(w, depth) ((w)->force_surface_temperature && fabs(depth) < 2.0 * DBL_EPSILON)
+#define FORCED(w, depth) ((w)->force_surface_temperature && __CPROVER_fabs(depth) < 2.0 * DBL_EPSILON)
 /* filled prefix of the local tables equals the request / the block offsets (k ranges over [0, MAXP)) */
 #define TAB_OK(k, upto) ((size_t)(k) >= (size_t)(upto) || (entry_in_output.data[k] == g_pre[k] && ARR3EQ(properties_local.data[k], REQ(k))))
 #include "gen.c"
